@@ -346,6 +346,61 @@ theorem history_children_map (d : Nat) (ops : List Op) : ∀ s, KidsMap s → Ki
     | true => exact accept_preserves_children_map d s op hs hres
     | false => rw [reject_is_noop d s op hres]; exact hs
 
+/-! ### 10. raw requests: the decoding glue in front of the entry points (labels, annotations, pod listing) -/
+
+/-- a raw create request is not named koordinator-root-quota. -/
+def NotRootAddRaw : RawOp → Prop
+  | .add r => r.name ≠ 0
+  | _ => True
+
+theorem notRootAdd_decode (s : Topo) (r : RawOp) (h : NotRootAddRaw r) : NotRootAdd (decodeOp s r) := by
+  cases r with
+  | add r => simpa [decodeOp, NotRootAdd, NotRootAddRaw, decodeQI] using h
+  | upd r le pods => simp [decodeOp, NotRootAdd]
+  | del n le pods => simp [decodeOp, NotRootAdd]
+
+theorem raw_accept_preserves_WF (d : Nat) (s : Topo) (r : RawOp) (hW : WF d s) (hr : NotRootAddRaw r)
+    (h : (stepRaw d s r).2 = true) : WF d (stepRaw d s r).1 :=
+  accept_preserves_WF d s (decodeOp s r) hW (notRootAdd_decode s r hr) h
+
+theorem raw_reject_is_noop (d : Nat) (s : Topo) (r : RawOp) (h : (stepRaw d s r).2 = false) : (stepRaw d s r).1 = s :=
+  reject_is_noop d s (decodeOp s r) h
+
+theorem raw_history_WF (d : Nat) (rs : List RawOp) (hrs : ∀ r ∈ rs, NotRootAddRaw r) :
+    ∀ s, WF d s → WF d (runRaw d s rs) := by
+  induction rs with
+  | nil => intro s hs; exact hs
+  | cons r rs ih =>
+    intro s hs
+    simp only [runRaw]
+    apply ih (fun o ho => hrs o (List.mem_cons_of_mem _ ho))
+    cases hres : (stepRaw d s r).2 with
+    | true => exact raw_accept_preserves_WF d s r hs (hrs r (List.mem_cons_self ..)) hres
+    | false => rw [raw_reject_is_noop d s r hres]; exact hs
+
+/-- a quota with children, with pods carrying its label, or whose pods cannot be listed is not deleted. -/
+theorem raw_delete_guard (d : Nat) (s : Topo) (n : Nat) (listErr : Bool) (pods : List Pod) (hF : Forest s)
+    (h : (stepRaw d s (.del n listErr pods)).2 = true) :
+    (∀ c ∈ s.info, c.parent ≠ n) ∧ listErr = false ∧ ∀ p ∈ pods, p.label ≠ some n := by
+  have h' : (validDelete s n (listErr || labelPods pods n)).2 = true := h
+  obtain ⟨h1, h2⟩ := delete_guard s n _ hF h'
+  rw [Bool.or_eq_false_iff] at h2
+  refine ⟨h1, h2.1, ?_⟩
+  intro p hp e
+  have := List.any_eq_false.mp h2.2 p hp
+  simp [e] at this
+
+/-- an absent or empty parent label means the root (except on the root-named object). -/
+theorem decode_parent_default (r : Raw) (hn : r.name ≠ 0) (hp : r.parentCode = 98 ∨ r.parentCode = 99) :
+    (decodeQI r).parent = 0 := by
+  rcases hp with hp | hp <;> simp [decodeQI, parentOf, hp, hn]
+
+/-- only the literal "true" turns a boolean label on. -/
+theorem decode_labels (r : Raw) :
+    ((decodeQI r).isParent = true ↔ r.isParentCode = 1) ∧ ((decodeQI r).force = true ↔ r.forceCode = 1) ∧
+    ((decodeQI r).treeRoot = true ↔ r.rootCode = 1) := by
+  simp [decodeQI, labelTrue]
+
 /-! ### non-vacuity of the new clauses -/
 
 -- the scheduler's root object (name 0, parent "" = 99) created after A, B, C: accepted, and the root keeps its children
@@ -367,5 +422,18 @@ example : (step 1 exS (.add { exD with mn := [some 1], tree := 1 } false)).2 = f
 -- a namespace bound to A cannot be taken by a new quota, nor by an update of C
 example : (step 1 exS (.add { exD with mn := [some 1], ns := [7] } false)).2 = false ∧
           (step 1 exS (.upd { exC with ns := [7] } false false)).2 = false := by decide
+
+-- raw layer: an update of A that only re-spells the parent label (written-out root -> absent label) is NOT the
+-- unchanged-fields shortcut (the code compares raw strings): with a negative shared weight it is rejected, whereas the
+-- identical spelling is accepted whatever else the object carries
+def rawA (pc sw : Nat) : Raw :=
+  { name := 3, parentCode := pc, isParentCode := 1, tree := 0, forceCode := 2, rootCode := 2,
+    swShape := sw, nsShape := 0, nsList := [7], mnNil := false, mxNil := false, mn := [some 4], mx := [some 8] }
+example : decodeQI (rawA 0 0) = exA := by decide
+example : (stepRaw 1 exS (.upd (rawA 0 1) false [])).2 = true ∧ (stepRaw 1 exS (.upd (rawA 98 1) false [])).2 = false ∧
+          (stepRaw 1 exS (.upd (rawA 98 0) false [])).2 = true := by decide
+-- a failing pod listing, or a pod carrying the label, blocks the delete of the leaf B
+example : (stepRaw 1 exS (.del 4 false [])).2 = true ∧ (stepRaw 1 exS (.del 4 true [])).2 = false ∧
+          (stepRaw 1 exS (.del 4 false [{ nsKind := 1, ns := 5, label := some 4 }])).2 = false := by decide
 
 end KoordVerif.C15
